@@ -16,7 +16,7 @@ Definition ex_cmd_at (line : string) (ra : option str) (prn : option str) : comm
      c_ret := L "User"; c_async := false; c_chans := []; c_rename_all := ra |}.
 Definition ex_cmd := ex_cmd_at "10".
 Definition ex_proj (s : struct) (k : command) (ev : str) : project :=
-  [{| sf_path := ex_path; sf_cmds := [k]; sf_structs := [s]; sf_events := [{| e_name := ev; e_payload := L "String" |}] |}].
+  [{| sf_path := ex_path; sf_cmds := [k]; sf_structs := [s]; sf_events := [{| e_name := ev; e_payload := L "String" |}]; sf_ndefs := L "1" |}].
 Definition ex_cfg (lib : string) (viz : bool) : config :=
   {| g_lib := L lib; g_private := false; g_maps := None; g_pcase := L "camelCase"; g_fcase := L "snake_case";
      g_viz := viz; g_force := false; g_ppath := L "src-tauri" |}.
@@ -77,7 +77,7 @@ Definition p_field_type : project :=
       sf_structs := [{| s_name := L "User"; s_file := ex_path; s_enum := false;
                         s_fields := [{| f_name := L "user_name"; f_type := L "u64"; f_opt := false; f_pub := true;
                                         f_rename := None; f_valid := v1 |}]; s_rename_all := None |}];
-      sf_events := [] |}].
+      sf_events := []; sf_ndefs := L "1" |}].
 Lemma ex_detected :
   let sg := final p0 c0 [RunOp w1 false; SetSrcOp p_field_type; DeleteOp Events; RunOp w1 false; SetCfgOp cz] in
   kf_C08 w1 sg = [] /\ fst (run_c true w1 false None (fst sg)) = Success.
@@ -110,7 +110,7 @@ Proof. intros h Hc. cbn in Hc. discriminate. Qed.
 
 (* ---- C14 witnesses ---- *)
 Definition mk_file (path name : string) : sfile :=
-  {| sf_path := L path; sf_structs := []; sf_events := [];
+  {| sf_path := L path; sf_structs := []; sf_events := []; sf_ndefs := L "0";
      sf_cmds := [{| c_name := L name; c_file := L path; c_line := L "3"; c_params := []; c_ret := L "String"; c_async := false;
                     c_chans := []; c_rename_all := None |}] |}.
 Definition p2 : project := [mk_file "src-tauri/a.rs" "cmd_a"; mk_file "src-tauri/b.rs" "cmd_b"].
@@ -135,9 +135,23 @@ Lemma c14_fixed_maps :
   fst (run_c true wm10 false None st1) = UpToDate.
 Proof. vm_compute. repeat split. Qed.
 Lemma c14_ex_keys :
-  NoDup (map (cmd_key (g_ppath c0)) (a_cmds (analyse w01 p2))) /\ NoDup (map s_name (a_structs (analyse w01 p2))) /\ has_commands p2 = true.
-Proof. split; [|split; [constructor|reflexivity]].
-  repeat (constructor; [cbn; intuition discriminate|]). constructor. Qed.
+  fp w01 p2 c0 = fp w10 p2 c0 /\ NoDup (map s_name (a_structs (analyse w01 p2))) /\ has_commands p2 = true /\
+  u_events (analyse w01 p2) = u_events (analyse w10 p2).
+Proof. split; [vm_compute; reflexivity|]. split; [constructor|]. split; reflexivity. Qed.
+
+(* ---- C08-10: two commands of one file swapped (former witness: undetected while the hash sorted by name) ---- *)
+Definition ex_cmd2 : command :=
+  {| c_name := L "a_first"; c_file := ex_path; c_line := L "20"; c_params := []; c_ret := L "String"; c_async := false;
+     c_chans := []; c_rename_all := None |}.
+Definition p_two (ks : list command) : project :=
+  [{| sf_path := ex_path; sf_cmds := ks; sf_structs := [ex_struct None None v1]; sf_events := []; sf_ndefs := L "1" |}].
+Lemma fixed_10 : detects (p_two [ex_cmd None None; ex_cmd2]) c0 [RunOp w1 false; SetSrcOp (p_two [ex_cmd2; ex_cmd None None])].
+Proof. vm_compute. repeat split. Qed.
+(* class 8, second component: an unreferenced type definition added while visualize_deps is on *)
+Lemma refuted_8b : refutes [8] p0 (ex_cfg "none" true)
+  [RunOp w1 false; SetSrcOp [{| sf_path := ex_path; sf_cmds := [ex_cmd None None]; sf_structs := [ex_struct None None v1];
+                               sf_events := [{| e_name := L "ping"; e_payload := L "String" |}]; sf_ndefs := L "2" |}]].
+Proof. vm_compute. repeat split. Qed.
 
 (* ---- C17 witness for the premises ---- *)
 Lemma c17_ex :
